@@ -1,5 +1,7 @@
 import Aplang.Proofs.ParserSound
 import Aplang.Proofs.ParserEval
+import Aplang.Proofs.ParserComplete
+import Aplang.Proofs.ParserMin
 /-!
 # C05 — operator precedence and associativity are structural properties of every tree the parser returns
 
@@ -13,7 +15,22 @@ import Aplang.Proofs.ParserEval
 * `explicit_parens_override`: a parenthesised expression becomes a `.grouping` node, of the tightest level,
   whatever is inside.
 
-No hypothesis on the token list; for every fuel.
+* `parse_renderFull_partial`: completeness for fully parenthesised renderings — for every spec-level
+  expression `e` (literals, variables, binary / logical / unary operators, assignment to a variable; calls,
+  list literals and indexing are not covered, hence `_partial`), the token list `renderFull e`, in which every
+  operand that is not a single token is written in parentheses, parses to `groupAll e` (a `.grouping` node
+  at every parenthesised operand), with all sufficiently large fuels, whenever the following token cannot
+  continue an expression.
+
+* `parse_renderMin_partial`: completeness for *minimally* parenthesised renderings — `renderMin 1 e` writes
+  parentheses only where the ladder requires them (an operand that binds looser than its position allows:
+  binary operators and OR nest to the left, assignment, unary operators and AND to the right) and parses to
+  `treeMin 1 e`, which has `.grouping` nodes exactly at those parentheses.
+* `min_and_full_same_tree`: both trees are the tree `skeleton e` of the expression up to `.grouping` nodes
+  (`Ungroups`) — the parser half of "behaves identically with minimal and with full parentheses"; the
+  evaluator maps `.grouping e` to `e`.
+
+The soundness theorems need no hypothesis on the token list and hold for every fuel.
 -/
 namespace Aplang
 open P
@@ -52,7 +69,7 @@ theorem level_range (e : Expr) : 1 ≤ level e ∧ level e ≤ 9 := ⟨level_pos
 
 /-- **explicit parentheses always override**: if the tokens after a `(` parse as an expression `inner`
 — of any level — and a `)` follows, then `primary` returns `.grouping inner`, a tree of the tightest
-level 9 (so it is admitted as an operand of every operator, and as the base of an indexing). -/
+level 9 (so it is accepted as an operand of every operator, and as the base of an indexing). -/
 theorem explicit_parens_override (f : Nat) (s : PState) (lp rp : Token) (r rest : List Token)
     (inner : Expr) (s2 : PState)
     (h : s.after = lp :: r) (hlp : lp.tt = .leftParen)
@@ -143,5 +160,98 @@ example : (match expression 40 (startOn [kwTok .leftParen 0, numTok 1 1, kwTok .
 example : (match expression 40 (startOn [idTok ['x'] 0, kwTok .arrow 1, idTok ['y'] 2, kwTok .arrow 3, numTok 1 4, kwTok .eof 5]) with
     | .ok (.assign _ a (.assign _ b (.lit _ c) _) _) s' => a.off == 0 && b.off == 2 && c.off == 4 && s'.after.length == 1
     | _ => false) = true := by decide
+
+
+/-! ## completeness for fully parenthesised expressions -/
+
+/-- **the fully parenthesised rendering of an expression parses to the fully grouped tree.**
+`_partial`: the spec-level expressions `SExpr` cover literals, variables, binary, logical and unary
+operators and assignment to a variable — not calls, list literals, indexing or assignment to an index
+expression. `lp` / `rp` are the parenthesis tokens the renderer inserts. The follow condition
+`stopsExpr nxt.tt`: the next token is none of `<-` `OR` `AND` `==` `!=` `<` `<=` `>` `>=` `+` `-` `*` `/` `MOD`
+`[` `(` — e.g. a separator, a closing bracket, a keyword or the end of input. -/
+theorem parse_renderFull_partial (lp rp : Token) (hlp : lp.tt = .leftParen) (hrp : rp.tt = .rightParen)
+    (e : SExpr) (he : e.WF) (s : PState) (nxt : Token) (r : List Token)
+    (h : s.after = renderFull lp rp e ++ nxt :: r) (hstop : stopsExpr nxt.tt) :
+    ∃ fuel, ∀ g, fuel ≤ g → expression g s = .ok (groupAll lp rp e)
+      { s with before := (renderFull lp rp e).reverse ++ s.before, after := nxt :: r } := by
+  obtain ⟨f, hf⟩ := mainQ lp rp hlp hrp e he s nxt r h hstop
+  exact ⟨f, fun g hg => (exprMono hg).expression s _ _ hf⟩
+
+/-- the fully grouped tree is a rendering of `renderFull e` and respects the ladder: with every operand
+in parentheses, precedence and associativity play no role -/
+theorem groupAll_shape (lp rp : Token) (hlp : lp.tt = .leftParen) (hrp : rp.tt = .rightParen)
+    (e : SExpr) (he : e.WF) : Shape (groupAll lp rp e) (renderFull lp rp e) ∧ RespectsPrec (groupAll lp rp e) := by
+  let eof : Token := ⟨.eof, [], .none, 0, 0⟩
+  obtain ⟨f, hf⟩ := parse_renderFull_partial lp rp hlp hrp e he
+    ⟨[], renderFull lp rp e ++ [eof], false, false⟩ eof [] rfl (by decide)
+  have hf' := hf f (Nat.le_refl f)
+  refine ⟨?_, parse_respects_ladder _ _ _ _ hf'⟩
+  obtain ⟨c, _, _, ha, hs, _⟩ := parse_sound _ _ _ _ hf'
+  have : c = renderFull lp rp e := by
+    have ha' : renderFull lp rp e ++ [eof] = c ++ [eof] := ha
+    exact (List.append_cancel_right ha').symm
+  rw [← this]; exact hs
+
+/-- non-vacuity: `( 1 - 2 ) - 3` as a spec-level expression is well-formed, and its rendering has the 7
+expected tokens -/
+example : (SExpr.binary (.binary (.lit (.num 1) (numTok 1 0)) .sub (kwTok .minus 1) (.lit (.num 2) (numTok 2 2)))
+    .sub (kwTok .minus 3) (.lit (.num 3) (numTok 3 4))).WF := ⟨⟨rfl, rfl, rfl⟩, rfl, rfl⟩
+example : (renderFull (kwTok .leftParen 100) (kwTok .rightParen 101)
+    (.binary (.binary (.lit (.num 1) (numTok 1 0)) .sub (kwTok .minus 1) (.lit (.num 2) (numTok 2 2)))
+      .sub (kwTok .minus 3) (.lit (.num 3) (numTok 3 4)))).map (·.off) = [100, 0, 1, 2, 101, 3, 4] := by decide
+example : stopsExpr .eof ∧ stopsExpr .rightParen ∧ stopsExpr .softSemi ∧ stopsExpr .rightBrace ∧
+    stopsExpr .comma ∧ stopsExpr .times ∧ ¬ stopsExpr .plus ∧ ¬ stopsExpr .leftBracket := by decide
+
+
+/-! ## completeness for minimally parenthesised expressions -/
+
+/-- **the minimally parenthesised rendering parses to the tree with groups exactly at the written
+parentheses.** `_partial`: same fragment as `parse_renderFull_partial` (no calls, list literals,
+indexing). The ladder is the model's: AND chains nest to the right, so `a AND b AND c` is the minimal
+rendering of `a AND (b AND c)`, and `(a AND b) AND c` keeps its parentheses. -/
+theorem parse_renderMin_partial (lp rp : Token) (hlp : lp.tt = .leftParen) (hrp : rp.tt = .rightParen)
+    (e : SExpr) (he : e.WF) (s : PState) (nxt : Token) (r : List Token)
+    (h : s.after = renderMin lp rp 1 e ++ nxt :: r) (hstop : stopsExpr nxt.tt) :
+    ∃ fuel, ∀ g, fuel ≤ g → expression g s = .ok (treeMin lp rp 1 e)
+      { s with before := (renderMin lp rp 1 e).reverse ++ s.before, after := nxt :: r } := by
+  obtain ⟨f, hf⟩ := (minQ lp rp hlp hrp e he).all .assign s nxt r h (by rw [hstop.1]; decide) hstop.2
+  refine ⟨f + 1, fun g hg => (exprMono hg).expression s _ _ ?_⟩
+  simp only [P.expression]
+  exact hf
+
+/-- at the top level nothing is parenthesised -/
+theorem renderMin_top (lp rp : Token) (e : SExpr) :
+    renderMin lp rp 1 e = rawMin lp rp e ∧ treeMin lp rp 1 e = rawTree lp rp e :=
+  renderMin_raw lp rp (SExpr.level_pos e)
+
+/-- **minimal and full parenthesisation give the same tree up to `.grouping` nodes**: both parse, and
+both results are `skeleton e` with groups added -/
+theorem min_and_full_same_tree (lp rp : Token) (hlp : lp.tt = .leftParen) (hrp : rp.tt = .rightParen)
+    (e : SExpr) (he : e.WF) (s₁ s₂ : PState) (nxt : Token) (r : List Token)
+    (h₁ : s₁.after = renderMin lp rp 1 e ++ nxt :: r) (h₂ : s₂.after = renderFull lp rp e ++ nxt :: r)
+    (hstop : stopsExpr nxt.tt) :
+    ∃ fuel t₁ t₂ s₁' s₂', expression fuel s₁ = .ok t₁ s₁' ∧ expression fuel s₂ = .ok t₂ s₂' ∧
+      Ungroups t₁ (skeleton e) ∧ Ungroups t₂ (skeleton e) ∧ s₁'.after = nxt :: r ∧ s₂'.after = nxt :: r := by
+  obtain ⟨f1, hf1⟩ := parse_renderMin_partial lp rp hlp hrp e he s₁ nxt r h₁ hstop
+  obtain ⟨f2, hf2⟩ := parse_renderFull_partial lp rp hlp hrp e he s₂ nxt r h₂ hstop
+  exact ⟨max f1 f2, _, _, _, _, hf1 _ (Nat.le_max_left _ _), hf2 _ (Nat.le_max_right _ _),
+    treeMin_ungroups lp rp 1 e, groupAll_ungroups lp rp e, rfl, rfl⟩
+
+/-- non-vacuity: the minimal rendering of `(1 - 2) - 3` has no parentheses, that of `1 - (2 - 3)` has;
+`- (1 * 2)` keeps its parentheses, `(- 1) * 2` does not -/
+example : (renderMin (kwTok .leftParen 100) (kwTok .rightParen 101) 1
+    (.binary (.binary (.lit (.num 1) (numTok 1 0)) .sub (kwTok .minus 1) (.lit (.num 2) (numTok 2 2)))
+      .sub (kwTok .minus 3) (.lit (.num 3) (numTok 3 4)))).map (·.off) = [0, 1, 2, 3, 4] := by decide
+example : (renderMin (kwTok .leftParen 100) (kwTok .rightParen 101) 1
+    (.binary (.lit (.num 1) (numTok 1 0)) .sub (kwTok .minus 1)
+      (.binary (.lit (.num 2) (numTok 2 2)) .sub (kwTok .minus 3) (.lit (.num 3) (numTok 3 4))))).map (·.off)
+    = [0, 1, 100, 2, 3, 4, 101] := by decide
+example : (renderMin (kwTok .leftParen 100) (kwTok .rightParen 101) 1
+    (.unary .neg (kwTok .minus 0) (.binary (.lit (.num 1) (numTok 1 1)) .mul (kwTok .star 2)
+      (.lit (.num 2) (numTok 2 3))))).map (·.off) = [0, 100, 1, 2, 3, 101] := by decide
+example : (renderMin (kwTok .leftParen 100) (kwTok .rightParen 101) 1
+    (.binary (.unary .neg (kwTok .minus 0) (.lit (.num 1) (numTok 1 1))) .mul (kwTok .star 2)
+      (.lit (.num 2) (numTok 2 3)))).map (·.off) = [0, 1, 2, 3] := by decide
 
 end Aplang
